@@ -10,7 +10,13 @@ ALPHABETS = [
     ["a", "b", "\x00", "\U0010FFFF", "\n"],
     list("abcdefgh"),
     ["a", "b", "�", "\n"],
+    ["a", "\ud7ff", "\ue000", "\uf8ff", "\u0080", "\ufffd"],      # around the surrogate gap and the private-use area
+    ["\x7f", "\u0080", "\u07ff", "\u0800", "\uffff", "\U00010000", "a"],   # UTF-8 length boundaries
 ]
+
+# code points at which encodings, tables or printing verbs change behaviour: range bounds are drawn from here now and then
+BOUNDARY_CPS = [0x00, 0x09, 0x0A, 0x20, 0x27, 0x5C, 0x7F, 0x80, 0xFF, 0x100, 0x7FF, 0x800, 0xD7FF, 0xE000, 0xF8FF, 0xFEFF, 0xFFFD, 0xFFFE,
+                0xFFFF, 0x10000, 0x10FFFF]
 
 NAMED = {"\n": "\\n", "\t": "\\t", "\r": "\\r", "'": "\\'", "\\": "\\\\"}
 
@@ -110,6 +116,12 @@ def gen_atom(rng, alpha, regdefs, allow_dot):
         a, b = sorted([ord(rng.choice(alpha)), ord(rng.choice(alpha))])
         if rng.random() < 0.3:
             b = min(0x10FFFF, b + rng.choice([1, 2, 5]))
+        if rng.random() < 0.15:
+            a, b = sorted([rng.choice(BOUNDARY_CPS), rng.choice(BOUNDARY_CPS)])     # wide ranges (they overlap the others and get split)
+        elif rng.random() < 0.1:
+            a = rng.choice([x for x in BOUNDARY_CPS if x <= b] or [a])
+        if 0xD800 <= b <= 0xDFFF:
+            b = 0xD7FF
         return ("rng", a, b)
     if k < 0.87 and allow_dot:
         return ("dot",)
